@@ -122,6 +122,14 @@ def like(eng, st, t, val, shape=None, dtype=None, view=False, contig=True):
 
 
 def numel(eng, shape_term):
+    cs = ListOps(KShape)._concrete(shape_term)
+    if cs is not None and len(cs) == 1:
+        return cs[0]          # a vector of k elements has k elements
+    if 'numel_ax' not in eng.uf_cache:
+        eng.uf_cache['numel_ax'] = True
+        L = z3.Const('nmL', LS)
+        lo = ListOps(KShape)
+        eng.facts.append(z3.ForAll([L], z3.Implies(lo.len(L) == 1, mf('numel', LS, I)(L) == lo.at(L, 0)), patterns=[mf('numel', LS, I)(L)]))
     return mf('numel', LS, I)(shape_term)
 
 
